@@ -62,7 +62,7 @@ FILTERS = [(), ('A',), ('B',), ('C',), ('A', 'C'), ('IOError',),
            ('EOFError',), ('Exception',), ('B', 'EOFError')]
 ORIGINS = ['early_listener', 'listener', 'login_listener',
            'reaction_login_disconnect', 'reaction_status_json', 'decoder',
-           'outgoing_listener', 'exit_callback']
+           'outgoing_listener', 'exit_callback', 'hook_raises']
 
 
 def route_case(ctx, case):
@@ -119,6 +119,15 @@ def route_case(ctx, case):
         srvs.append(s)
         return s
     world = vnet.World(default=factory)
+    if origin == 'hook_raises':
+        # negotiating connect; the status connection is closed without a
+        # reply (EOFError -> the reactor's built-in fallback reconnects with
+        # the default version) and that reconnect is refused: the exception
+        # raised *inside the built-in hook* replaces the original one
+        st_srv = servers.Server({'version': version,
+                                 'status': {'mode': 'close', 'reply': None}})
+        srvs.append(st_srv)
+        world.servers = [st_srv, 'refuse']
     final_calls = []
     final_exc = CLASSES[case.get('final_new', 'C')]('raised by final')
 
@@ -136,9 +145,14 @@ def route_case(ctx, case):
                 fault['raised'] = True
                 fault['exc'] = drawn
                 raise drawn
+        allowed = {version}
+        ckw = {}
+        if origin == 'hook_raises':
+            allowed = {version, 47 if version != 47 else 340}
+            ckw['initial_version'] = version
         conn = Connection('localhost', 25565, username='u',
-                          allowed_versions={version},
-                          handle_exception=fkw, handle_exit=on_exit)
+                          allowed_versions=allowed,
+                          handle_exception=fkw, handle_exit=on_exit, **ckw)
 
         def make_handler(h):
             def fn(exc, exc_info):
@@ -151,9 +165,11 @@ def route_case(ctx, case):
                     raise e
                 if h['do'] == 'reraise':
                     raise exc
-                if h['do'] == 'reconnect' and not reconnected:
+                if h['do'] in ('reconnect', 'reconnect_direct') and \
+                        not reconnected:
                     reconnected.append(h['id'])
-                    conn.disconnect(immediate=True)
+                    if h['do'] == 'reconnect':
+                        conn.disconnect(immediate=True)
                     conn.connect()
             return fn
         for h in chain:
@@ -242,6 +258,7 @@ def route_case(ctx, case):
             initial = recorded
         want_type = {'reaction_login_disconnect': 'LoginDisconnect',
                      'reaction_status_json': 'ValueError',
+                     'hook_raises': 'ConnectionRefusedError',
                      'decoder': None}[origin]
         if initial is None:
             ctx.fail('route', 'X2-no-exception-recorded', case)
@@ -273,8 +290,9 @@ def route_case(ctx, case):
                 continue
             if h['do'] == 'reraise':
                 continue
-            if h['do'] == 'reconnect' and not did_reconnect:
-                did_reconnect = True
+            if h['do'] in ('reconnect', 'reconnect_direct') and \
+                    not did_reconnect:
+                did_reconnect = h['do']
             caught = True
             break
     want_final = None
@@ -315,14 +333,16 @@ def route_case(ctx, case):
     # X3
     if nt_after is not None:
         ctx.fail('route', 'X3-networking_thread-not-cleared', case)
-    if not links_closed or not links_closed[0]:
+    if (not links_closed or not links_closed[0]) and \
+            did_reconnect != 'reconnect_direct':
         ctx.fail('route', 'X3-link-left-open', case)
     if did_reconnect:
         if len(links_closed) < 2:
             ctx.fail('route', 'X3-reconnect-did-not-connect', case)
-        elif srvs[1].replies != [('keep_alive', 12)]:
+        elif srvs[1].replies != [('keep_alive', 12)] or srvs[1].errors:
             ctx.fail('route', 'X3-reconnected-session-disturbed', case,
-                     srvs[1].replies, [('keep_alive', 12)])
+                     (srvs[1].replies, srvs[1].errors[:2]),
+                     [('keep_alive', 12)])
     # X4
     should_raise = final == 'none' and not caught
     raised_out = [c for c in hook_calls]
@@ -359,7 +379,7 @@ def handler_strategy():
         'filter': st.sampled_from(FILTERS).map(list),
         'early': st.booleans(),
         'do': st.sampled_from(['return', 'raise', 'raise', 'reraise',
-                               'reconnect']),
+                               'reconnect', 'reconnect_direct']),
         'new': st.sampled_from(sorted(CLASSES))})
 
 
@@ -378,8 +398,13 @@ def case_strategy():
 def fix_case(c):
     if c['origin'] == 'outgoing_listener' and c['exc'] in ('IOError',):
         c = dict(c, exc='A')        # write-phase IOError is deferred
-    if c['origin'] == 'reaction_status_json':
+    if c['origin'] in ('reaction_status_json', 'hook_raises'):
         c = dict(c, compress=None)
+    if c['origin'] == 'hook_raises':
+        # after the refused fallback there is nothing to reconnect to in
+        # the same breath: keep handlers to return/raise/reraise
+        c = dict(c, chain=[dict(h, do='return') if h['do'].startswith(
+            'reconnect') else h for h in c['chain']])
     return c
 
 
@@ -419,13 +444,15 @@ def t_origins(ctx):
                            {'filter': ['Exception'], 'early': False,
                             'do': 'raise', 'new': 'C'}],
                           [{'filter': [], 'early': False,
-                            'do': 'reconnect'}]):
+                            'do': 'reconnect'}],
+                          [{'filter': [], 'early': False,
+                            'do': 'reconnect_direct'}]):
                 for comp in (None, 256):
                     route_case(ctx, fix_case({
                         'origin': origin, 'exc': 'B', 'chain': chain,
                         'final': final, 'final_new': 'EOFError',
                         'compress': comp, 'version': 757}))
-    ctx.exhaustive_done('8 origins x 4 finals x 4 chains x 2 compression '
+    ctx.exhaustive_done('9 origins x 4 finals x 5 chains x 2 compression '
                         'modes')
 
 
